@@ -1,7 +1,7 @@
 """C19 — output depends on the document's meaning, not its rendering.
 
-PARTIAL.  Proof part (Properties/C19.v): what unquoting a YAML key does to the operation parser (exact loss
-characterisation, refutation F07b), invariance of the emitted (tag client, method, signature) set under
+PARTIAL.  Proof part (Properties/C19.v): unquoting a numeric YAML response key changes nothing for the operation
+parser (full since the fix of F07b), invariance of the emitted (tag client, method, signature) set under
 permutations of `paths` (no-collision guard), invariance of a dataclass' field list under permutations of
 `properties`.  Differential part (NOT a theorem): the whole generator on one document rendered as JSON / YAML
 block / YAML flow / YAML with unquoted numeric keys (file hashes must be equal) and under random permutations
@@ -527,7 +527,7 @@ def main(chk: Check, replay: dict | None = None) -> int:
     usable = [c for c in render_cases if c["abs"]["usable"]]
     codes = chk.coq_eval(imports, "render_in * list (str * list str)", [c_render_case(c) for c in usable], "run_render",
                          tag="render") if chk.model_ok else None
-    chk.decide(usable, codes, {1: "F07b", 2: "F02a", 3: "F02c"},
+    chk.decide(usable, codes, {1: "F02a", 2: "F02c"},
                "render: Render.emitted_by_tag(parse_doc d) = methods per endpoints module of the generated package")
     chk.decide([c for c in render_cases if not c["abs"]["usable"]], None, {}, "render (no model: tag/module names differ)")
     by_variant: dict[str, int] = {}
@@ -547,7 +547,7 @@ def main(chk: Check, replay: dict | None = None) -> int:
     key_cases = [run_keys_case(i) for i in key_inputs]
     codes = chk.coq_eval(imports, "doc * option (list (str * str * str * list str))", [c_keys_case(c) for c in key_cases],
                          "run_keys", tag="keys") if chk.model_ok else None
-    chk.decide(key_cases, codes, {1: "F07b"}, "keys: Render.parse_doc = load_ir_from_spec(...).operations (path, method, id, codes)")
+    chk.decide(key_cases, codes, {}, "keys: Render.parse_doc = load_ir_from_spec(...).operations (path, method, id, codes)")
     yk = yaml_key_cases()
     codes = chk.coq_eval(imports, "str * key", [f"({cstr(c['input']['key'])}, {c_key(c['obs'])})" for c in yk], "run_yamlkey",
                          tag="yamlkey") if chk.model_ok else None
